@@ -39,9 +39,17 @@ var (
 	Want4   Lay4
 	WantA   int64          // field A of the receiver
 	WantPtr unsafe.Pointer // receiver pointer (pointer receivers)
-	WantX   int64          = 41
-	WantS                  = "str"
-	GenK    int64          // constant of the generic method about to be called (set by the call function)
+	// WantBasePtr is the receiver an embedded base type's method must see (= WantPtr unless the call went through an outer type)
+	WantBasePtr unsafe.Pointer
+	WantX       int64 = 41
+	WantS             = "str"
+	GenK        int64 // constant of the generic method about to be called (set by the call function)
+)
+
+// Stack-passed parameters (parameter kind 3).
+var (
+	WantArr  = [4]int64{7, 1, 2, 3}
+	WantArr2 = [4]int64{4, 5, 6, 8}
 )
 
 // What the last callback saw.
